@@ -81,6 +81,22 @@ Theorem pjson_float_lexeme_valid : forall b, num_okb (f64_lex b) = true.
 Proof. exact num_okb_f64_lex. Qed.
 Print Assumptions pjson_float_lexeme_valid.
 
+(* floats exact: the decimal m * 10^e that the lexeme of a double denotes (Num.lex_decimal) IS the value M * 2^k of the
+   bit pattern (P2J.f64_decomp) - stated cross-multiplied over the integers *)
+Theorem pjson_double_value_exact : forall b neg M k, f64_decomp b = (neg, M, k) ->
+  exists m e, lex_decimal (f64_lex b) = Some (neg, m, e) /\ e <= 0 /\
+              m * 2 ^ (Z.max 0 (- k)) = M * 2 ^ (Z.max 0 k) * 10 ^ (- e).
+Proof. exact f64_lex_value_exact. Qed.
+Print Assumptions pjson_double_value_exact.
+
+(* float (binary32) values are widened exactly: same sign, same value M * 2^k, still finite - so the lexeme of a float
+   field, f64_lex (widen32 b), denotes exactly the float32 value by the theorem above *)
+Theorem pjson_float_widen_exact : forall b, 0 <= b < 2 ^ 32 -> f32_is_finite b = true ->
+  forall neg M k neg' M' k', f32_decomp b = (neg, M, k) -> f64_decomp (widen32 b) = (neg', M', k') ->
+  neg' = neg /\ M' * 2 ^ (k' + 1074) = M * 2 ^ (k + 1074) /\ f64_is_finite (widen32 b) = true.
+Proof. exact widen32_exact. Qed.
+Print Assumptions pjson_float_widen_exact.
+
 (* a message that fits the schema has no JSON image exactly when it holds a non-finite float *)
 Theorem C08_no_image_iff_nonfinite : forall S o name m p,
   pj_of S o name m = Some p -> (pjson_of S o name m = None <-> pj_finite p = false).
@@ -133,6 +149,18 @@ Example ex_float_lexemes :
   lex2f64 (f64_lex (widen32 2147483648)) = Some (2 ^ 63) /\
   lex2f64 (f64_lex 1) = Some 1 /\ lex2f64 (f64_lex 9218868437227405311) = Some 9218868437227405311.
 Proof. vm_compute. repeat split; reflexivity. Qed.
+(* the comparison the checker uses accepts the denotation itself (strictly: no finding, no drift needed), and the text
+   the implementation should print parses and is accepted too *)
+Example ex_checker_accepts_denotation :
+  match pj_of exS exO [77] exM with
+  | Some p => pj_match false false p (pj_json p) = Some [] /\
+              match json_parse (json_print (pj_json p)) with
+              | Some j => pj_match false false p j = Some []
+              | None => False
+              end
+  | None => False
+  end.
+Proof. vm_compute. split; reflexivity. Qed.
 (* a NaN has no image *)
 Example ex_nan_no_image : pjson_of exS exO [77] [(4, VList true [VScalar K_FLOAT 2143289344])] = None.
 Proof. vm_compute. reflexivity. Qed.
